@@ -106,13 +106,13 @@ def TimeOK (o : Ora) (fmt nb noa : String) : Prop :=
 def timeSpec2 (o : Ora) (fmt noa : String) : Err :=
   if noa = "" then none else
   match o.timeParse fmt noa with
-  | none => some "failed to parse NotOnOrAfter: %w"
+  | none => some ("failed to parse NotOnOrAfter: " ++ "time.Parse")
   | some u => if u = o.now ∨ u < o.now then some "on or after time given by NotOnOrAfter" else none
 
 def timeSpec (o : Ora) (fmt nb noa : String) : Err :=
   if nb = "" then timeSpec2 o fmt noa else
   match o.timeParse fmt nb with
-  | none => some "failed to parse NotBefore: %w"
+  | none => some ("failed to parse NotBefore: " ++ "time.Parse")
   | some t => if t > o.now then some "before time given by NotBefore" else timeSpec2 o fmt noa
 
 theorem timeCheck_eq (o : Ora) (nb noa fmt : String) :
